@@ -6,6 +6,7 @@ import (
 	"context"
 	"fmt"
 	"os"
+	"path/filepath"
 
 	"github.com/bmeg/grip/gripql"
 	"verifsim/gen"
@@ -16,12 +17,14 @@ import (
 
 // C11, process death — "Completed jobs remain listed, readable and resumable
 // after a server restart", where the restart is a process that died in front of
-// an arbitrary file operation of the job store (the job store writes real
-// files; every os.* / (*os.File).* call of package jobstorage is an IOPoint,
-// and with CrashIO=k the simulated process dies in front of its k-th one:
-// what was written stays, nothing later happens).
+// an arbitrary step of the job store (the job store writes real files; every
+// yield site of package jobstorage - file operations, channel operations of
+// the serializer pools, lock acquisitions and releases - is a possible point
+// of death: with CrashSite="jobstorage/", CrashNth=k the simulated process
+// stops in front of the k-th step taken at such a site: what was written
+// stays, nothing later happens).
 //
-// A first crash-free run of the seeded workload counts the file operations N;
+// A first crash-free run of the seeded workload counts the steps N taken inside the job store;
 // then the same workload (same seed, so the same schedule up to the crash) is
 // re-run with the crash in front of operation k for the chosen k in 1..N.
 // After each crash a new server is started over the surviving directory and
@@ -40,7 +43,7 @@ type c11cW struct {
 	Graph  *model.GraphData `json:"graph"`
 	Progs  [][]string       `json:"progs"`
 	Delete []bool           `json:"delete"`
-	// crash positions in permille of the file operations of the crash-free run;
+	// crash positions in permille of the job-store steps of the crash-free run;
 	// empty = every position (bounded)
 	CrashAt []int `json:"crash_at"`
 }
@@ -53,7 +56,7 @@ func init() {
 		Exec:   func(w interface{}, x *Exec) *Outcome { return execC11c(w.(*c11cW), x) },
 		Shrink: func(w interface{}) []interface{} { return shrinkC11c(w.(*c11cW)) },
 		Real:   []string{"jobstorage (Spool, Stream, Delete, List, Status, NewFSJobStorage reload) on real files", "server job handlers"},
-		Stub:   []string{"process death = the simulated process stops in front of a file operation; files written so far survive (no power-loss model: the job store never syncs, so nothing is claimed about unsynced data)"},
+		Stub:   []string{"process death = the simulated process stops in front of a step of the job store; files written so far survive (no power-loss model: the job store never syncs, so nothing is claimed about unsynced data)"},
 	})
 }
 
@@ -67,7 +70,7 @@ func genC11c(r *Rng, tier string) *c11cW {
 		w.Delete = append(w.Delete, r.Chance(25))
 	}
 	if tier != "thorough" || r.Chance(50) {
-		for i := 0; i < 4; i++ {
+		for i := 0; i < 8; i++ {
 			w.CrashAt = append(w.CrashAt, r.Intn(1001))
 		}
 		// the end of a job (status file creation and write) is where durability is decided
@@ -127,7 +130,7 @@ func execC11c(w *c11cW, x *Exec) *Outcome {
 	o.Count("policy:"+simrt.Policy(w.Run.Policy).String(), 1)
 	dir := x.WorkDir + "/c11c"
 
-	// one run of the workload with the process dying in front of file operation k (0 = never)
+	// one run of the workload with the process dying in front of job-store step k (0 = never)
 	type runOut struct {
 		jobs    []*c11cJob
 		res     BubbleResult
@@ -140,7 +143,7 @@ func execC11c(w *c11cW, x *Exec) *Outcome {
 		ro := &runOut{disk: simkv.NewDisk()}
 		os.RemoveAll(dir)
 		cfg := w.Run.Sim()
-		cfg.CrashIO = k
+		cfg.CrashSite, cfg.CrashNth = "jobstorage/", k
 		if cfg.MaxSteps == 0 {
 			cfg.MaxSteps = 2000000
 		}
@@ -175,7 +178,7 @@ func execC11c(w *c11cW, x *Exec) *Outcome {
 					if err := srv.Srv.Traversal(&gripql.GraphQuery{Graph: "g", Query: p}, ts); err != nil {
 						continue
 					}
-					job, err := srv.Srv.Submit(ctx, &gripql.GraphQuery{Graph: "g", Query: p})
+					job, err := srv.submitUnary(&gripql.GraphQuery{Graph: "g", Query: p})
 					if err != nil || job == nil {
 						continue
 					}
@@ -204,9 +207,16 @@ func execC11c(w *c11cW, x *Exec) *Outcome {
 				}
 			})
 			return nil
-		}, func(s *simrt.Sim, v simrt.Verdict) {
-			ro.ioCount = s.IOCount()
+			}, func(s *simrt.Sim, v simrt.Verdict) {
+			ro.ioCount = s.SiteSteps()
 			ro.site = s.CrashSite()
+			if v == simrt.Crashed {
+				// the files as they are at the moment of death: tearing the
+				// simulated goroutines down afterwards runs their deferred
+				// calls (flushes, closes), which a dead process never does
+				os.RemoveAll(dir + ".dead")
+				copyTree(dir, dir+".dead")
+			}
 		})
 		return ro
 	}
@@ -236,7 +246,7 @@ func execC11c(w *c11cW, x *Exec) *Outcome {
 	}
 	N := base.ioCount
 	if N == 0 {
-		o.Inconclusive = "no file operation reached"
+		o.Inconclusive = "no step inside the job store reached"
 		return o
 	}
 	var ks []int
@@ -270,12 +280,12 @@ func execC11c(w *c11cW, x *Exec) *Outcome {
 		}
 		if ro.res.Verdict != simrt.Crashed {
 			// same seed, same schedule: the crash-free run reached N operations
-			o.Inconclusive = fmt.Sprintf("infra: crash at file operation %d of %d did not happen (verdict %s)", k, N, ro.res.Verdict)
+			o.Inconclusive = fmt.Sprintf("infra: crash at job-store step %d of %d did not happen (verdict %s)", k, N, ro.res.Verdict)
 			return o
 		}
-		o.Count("fault:process_death_before_file_operation", 1)
+		o.Count("fault:process_death_inside_job_store", 1)
 		o.Count("crash_site:"+siteFunc(ro.site), 1)
-		if v := checkAfterDeath(x, w, ro.jobs, ro.disk, dir, k, N, ro.site, o); v != nil {
+		if v := checkAfterDeath(x, w, ro.jobs, ro.disk, dir+".dead", k, N, ro.site, o); v != nil {
 			o.Violation = v
 			break
 		}
@@ -312,7 +322,7 @@ func splitColon(s string) []string {
 // checkAfterDeath starts a new server over the surviving job directory.
 func checkAfterDeath(x *Exec, w *c11cW, jobs []*c11cJob, disk *simkv.Disk, dir string, k, N int, site string, o *Outcome) *Violation {
 	var viol *Violation
-	where := fmt.Sprintf("process died in front of file operation %d of %d (%s)", k, N, site)
+	where := fmt.Sprintf("process died in front of step %d of %d taken inside the job store (%s)", k, N, site)
 	fail := func(sig, detail string) {
 		if viol == nil {
 			viol = &Violation{Class: "C11/process-death", Signature: "C11/process-death/" + sig, Detail: where + ": " + detail}
@@ -415,4 +425,23 @@ func checkAfterDeath(x *Exec, w *c11cW, jobs []*c11cJob, disk *simkv.Disk, dir s
 		return nil
 	}
 	return viol
+}
+
+func copyTree(src, dst string) {
+	filepath.Walk(src, func(p string, info os.FileInfo, err error) error {
+		if err != nil {
+			return nil
+		}
+		rel, _ := filepath.Rel(src, p)
+		t := filepath.Join(dst, rel)
+		if info.IsDir() {
+			os.MkdirAll(t, 0755)
+			return nil
+		}
+		b, err := os.ReadFile(p)
+		if err == nil {
+			os.WriteFile(t, b, 0644)
+		}
+		return nil
+	})
 }
